@@ -152,7 +152,7 @@ def run(ck):
     # ---------------- R3 ----------------
     w = lib.single(prog, RS + "write")
     seq = []
-    for e in sorted(w.events("call"), key=lambda x: x["i"]):
+    for e in sorted(w.events("call"), key=lambda x: (-x.block, x.idx)):
         if e.get("op") == "<<" or strip_tmpl(e.get("callee") or "") == "std::basic_ostream::write":
             args = [a.get("t") or "" for a in e.get("args", [])]
             seq.append((strip_tmpl(e.get("callee") or "").rsplit("::", 1)[-1], args))
@@ -172,7 +172,7 @@ def run(ck):
     ck.require(ops, "template operator<<(ResponseStream&, const T&) has no instantiation (inst driver missing)")
     for o in ops:
         vp = o.params[1]["name"]
-        calls = sorted([e for e in o.events("call") if e.get("op") == "<<"], key=lambda x: x["i"])
+        calls = sorted([e for e in o.events("call") if e.get("op") == "<<"], key=lambda x: (-x.block, x.idx))
         texts = [[a.get("t") or "" for a in e.get("args", [])] for e in calls]
         flat = [t[-1].rsplit("::", 1)[-1] if t else "" for t in texts]
         sizecall = [e for e in o.events("call") if strip_tmpl(e.get("callee") or "") == "Pistache::Size::operator()"]
